@@ -116,6 +116,7 @@ func slotAlts() []slotAlt {
 		{label: "[1]string", typ: "[1]string"},
 		{label: "[3]Color", typ: "[3]Color", local: true},
 		{label: "[2][2]int", typ: "[2][2]int"},
+		{label: "[2][3]int", typ: "[2][3]int"},
 		{label: "[8][]int", typ: "[8][]int"},
 		{label: "[8]map[string]int", typ: "[8]map[string]int"},
 		{label: "[2][]int", typ: "[2][]int"},
@@ -153,6 +154,7 @@ func slotAlts() []slotAlt {
 		{label: "sql.NullBool", typ: "sql.NullBool"},
 		{label: "sql.NullFloat64", typ: "sql.NullFloat64"},
 		{label: "OptID", typ: "OptID", declA: "type OptID struct {\n\tValid bool\n\tID Count\n}\n", local: true},
+		{label: "OptTags", typ: "OptTags", declA: "type OptTags struct {\n\tValid bool\n\tL     []string\n}\n", local: true},
 		{label: "OptID-reversed", typ: "OptID", declA: "type OptID struct {\n\tID Count\n\tValid bool\n}\n", local: true},
 		{label: "OptDate", typ: "OptDate", declA: "type OptDate struct {\n\tD Date\n\tValid bool\n}\n", declB: "type Date time.Time\n" + dateCompanions, local: true},
 		// generics
@@ -160,6 +162,7 @@ func slotAlts() []slotAlt {
 		{label: "Pair[int]", typ: "Pair[int]", declB: "type Pair[T any] struct {\n\tA, B T\n}\n", local: true},
 		{label: "Pair[AliasInt]", typ: "Pair[AliasInt]", declA: "type AliasInt = int\n", declB: "type Pair[T any] struct {\n\tA, B T\n}\n", local: true},
 		{label: "Box[[]string]", typ: "Box[[]string]", declB: "type Box[T any] struct {\n\tV []T\n}\n", local: true},
+		{label: "two-instantiations", typ: "TwoPairs", declA: "type TwoPairs struct {\n\tP1 Pair[Count]\n\tP2 Pair[int]\n}\n", declB: "type Pair[T any] struct {\n\tA, B T\n}\n", local: true},
 		{label: "Box[Circle]", typ: "Box[Circle]", declA: "type Box[T any] struct {\n\tV []T\n}\n", local: true},
 		// time and dates
 		{label: "time.Time", typ: "time.Time"},
@@ -194,6 +197,7 @@ func slotAlts() []slotAlt {
 		{label: "subpkg.Names", typ: "subpkg.Names"},
 		// unsupported forms
 		{label: "*int", typ: "*int"},
+		{label: "*time.Time", typ: "*time.Time"},
 		{label: "*Circle", typ: "*Circle", local: true},
 		{label: "chan int", typ: "chan int"},
 		{label: "func()", typ: "func()"},
@@ -272,7 +276,7 @@ func TypesWith(c explore.Chooser, opt TypesOpt) *prog.Program {
 		var k []slotAlt
 		for _, a := range alts {
 			switch a.label {
-			case "*int", "*Circle", "chan int", "func()", "anon-struct", "any", "error", "fmt.Stringer", "[]Shape", "map[string]Shape", "self-pointer", "named-pointer", "uintptr", "complex128", "rec-array-pointer", "rec-array-mutual":
+			case "*int", "*time.Time", "*Circle", "chan int", "func()", "anon-struct", "any", "error", "fmt.Stringer", "[]Shape", "map[string]Shape", "self-pointer", "named-pointer", "uintptr", "complex128", "rec-array-pointer", "rec-array-mutual":
 				continue
 			}
 			k = append(k, a)
